@@ -168,6 +168,8 @@ func checkAccepted(t byte, b []byte, kind string) {
 		tr = "trailing"
 	}
 	out.Class("accepted/" + tn + "/" + kind + "/" + tr)
+	// a message object may be decoded into again: the second decode must not show anything of the first
+	reuseCheck(t, m, in[:n], detail)
 	// a copy obtained through Clone is a message of its own: changing it through the setters must
 	// leave the decoded original (its fields and the bytes it re-encodes to) alone, and the clone
 	// must encode to what the reference encoder gives for its new fields
@@ -417,4 +419,49 @@ func TestC03CounterConc(t *testing.T) {
 		out.Class(fmt.Sprintf("counterconc/g%d", gor))
 		out.End()
 	}
+}
+
+// lastAccepted keeps, per packet type, the previous accepted packet (bytes), so that every accepted
+// packet is also decoded into a message object that already holds another packet of its type.
+var lastAccepted = map[byte][]byte{}
+
+func reuseCheck(t byte, cur message.Message, wire []byte, detail map[string]interface{}) {
+	prev := lastAccepted[t]
+	lastAccepted[t] = append([]byte{}, wire...)
+	if prev == nil {
+		return
+	}
+	// decode prev into a fresh object, then the current packet into that same object
+	m, _, err, pan, _, _ := libDecode(t, append([]byte{}, prev...))
+	if pan != nil || err != nil {
+		return
+	}
+	var n2 int
+	func() {
+		defer func() {
+			if r := recover(); r != nil {
+				pan = r
+			}
+		}()
+		n2, err = m.Decode(append(make([]byte, 0, len(wire)), wire...))
+	}()
+	tn := rc.TypeName(t)
+	if pan != nil {
+		out.Violation("c03:reuse-panic:"+tn, fmt.Sprint(pan), detail)
+		return
+	}
+	if err != nil || n2 != len(wire) {
+		out.Violation("c03:reuse-decode:"+tn, fmt.Sprintf("decoding an accepted packet into a message object that held another packet: n=%d err=%v (a fresh object accepts it)", n2, err), detail)
+		return
+	}
+	if d := diffPackets(libFields(cur), libFields(m)); d != "" {
+		out.Violation("c03:reuse-stale:"+tn, "decoded into a message object that held "+hex(prev)+": fields differ from a fresh decode: "+d, detail)
+		return
+	}
+	b2, ln, n3, err, pan := libEncode(m)
+	if pan != nil || err != nil || ln != len(wire) || n3 != len(wire) || !bytes.Equal(b2[:n3], wire) {
+		out.Violation("c03:reuse-reencode:"+tn, fmt.Sprintf("re-encoding after a second decode into the same object: Len=%d n=%d err=%v", ln, n3, err), detail)
+		return
+	}
+	out.Count("c03.reuse.checked", 1)
 }
